@@ -308,7 +308,8 @@ impl HandshakeState {
                 #[cfg(feature = "hfs")]
                 Token::E1 => {
                     let kem = self.kem.as_mut().ok_or(Error::Input)?;
-                    if kem.pub_len() > message.len() {
+                    let tag_len = if self.symmetricstate.has_key() { TAGLEN } else { 0 };
+                    if byte_index + kem.pub_len() + tag_len > message.len() {
                         return Err(Error::Input);
                     }
 
@@ -323,7 +324,8 @@ impl HandshakeState {
                     let mut kem_output_buf = [0; MAXKEMSSLEN];
                     let mut ciphertext_buf = [0; MAXKEMCTLEN];
 
-                    if kem.ciphertext_len() > message.len() {
+                    let tag_len = if self.symmetricstate.has_key() { TAGLEN } else { 0 };
+                    if byte_index + kem.ciphertext_len() + tag_len > message.len() {
                         return Err(Error::Input);
                     }
 
